@@ -108,6 +108,8 @@ func text(n jl.Node, sb *strings.Builder, r *rand.Rand) {
 			sb.Write(b)
 		} else if v, ok := n["b"]; ok {
 			fmt.Fprintf(sb, "%v", v)
+		} else if v, ok := n["x"].(string); ok && strings.HasPrefix(v, "flt:") {
+			sb.WriteString(v[4:]) // a float leaf: its text is the shortest form, which is what the projection reports
 		} else {
 			sb.WriteString("null")
 		}
@@ -260,7 +262,7 @@ func matrix(out *bufio.Writer, full bool) {
 		if len(ts) > 1 {
 			class += "/multi-target"
 		}
-		out.Write(plib.MarshalLine(mcase{Doc: doc, Targets: ts, Class: class, Chunks: []string{"whole", "1", "half"}}))
+		out.Write(plib.MarshalLine(mcase{Doc: doc, Targets: ts, Class: class, Chunks: []string{"whole", "1", "half", "dataerr:1"}}))
 	}
 	// scalar and empty roots (a bare top-level value is complete only at end of input: the Load variants must flush it),
 	// and the root itself as a target
@@ -272,6 +274,25 @@ func matrix(out *bufio.Writer, full bool) {
 			if i > 0 {
 				emit(d, smenu[0], smenu[i])
 				emit(d, smenu[i], smenu[0])
+			}
+		}
+	}
+	// decimal and exponent leaves (opaque to the specification: compared as atoms), so that a number split across reads is
+	// delivered whole; only under targets without filters, which would have to order them
+	F := func(t string) jl.Node { return jl.Node{"x": "flt:" + t} }
+	fdocs := []jl.Node{
+		O("a", F("12.75"), "b", A(F("0.5"), F("-0.125"), I(3), F("1.5e+20")), "c", O("a", F("-2.5e-07"), "b", F("1234.5678"))),
+		A(F("12.75"), A(F("0.25"), F("3.5")), O("a", F("1e+21")), F("-0.001953125")),
+		F("12.75"), F("-2.5e-07"),
+	}
+	fmenu := [][]jl.Frag{{jl.FRoot()}, {jl.FRoot(), jl.FChild("a")}, {jl.FRoot(), jl.FChild("b")}, {jl.FRoot(), jl.FWild()}, {jl.FRoot(), jl.FWild(), jl.FWild()},
+		{jl.FRoot(), jl.FNth(0)}, {jl.FRoot(), jl.FNth(1)}, {jl.FRoot(), jl.FNth(-1)}, {jl.FRoot(), jl.FDesc(), jl.FChild("a")}, {jl.FRoot(), jl.FDesc(), jl.FNth(0)},
+		{jl.FRoot(), jl.FUnion("a", "b")}, {jl.FRoot(), jl.FChild("b"), jl.FSlice(0, 2, 1)}, {jl.FRoot(), jl.FChild("c"), jl.FWild()}}
+	for _, d := range fdocs {
+		for i := range fmenu {
+			emit(d, fmenu[i])
+			if i > 0 {
+				emit(d, fmenu[i], fmenu[(i+3)%len(fmenu)])
 			}
 		}
 	}
@@ -326,7 +347,7 @@ func gen(args []string) {
 		if nt > 1 {
 			class += "/multi-target"
 		}
-		chunks := []string{"whole", "1", "3", "half"}
+		chunks := []string{"whole", "1", "3", "half", "dataerr:3"}
 		out.Write(plib.MarshalLine(mcase{Doc: doc, Targets: ts, Class: class, Chunks: chunks}))
 	}
 }
